@@ -71,7 +71,7 @@ REGISTRY["C04"] = {
 }
 
 REGISTRY["C11"] = {
-    "modules": ["contracts.disasm"],
+    "modules": ["contracts.disasm", "contracts.rt"],
     "category": "other",
     "technique": "contract-based deductive verification of the real code: ghost invariant 'no pending prefix instruction at any exit of disassembler.__call__' discharged on symbolic byte strings with every setup function replaced by a stub whose outcome is a symbolic choice (returns / InstructionError / DecodeError / any other exception); ispec.decode rollback contract on symbolic bytes",
     "level_text": "Bounded symbolic verification: for every cpu module/mode, all byte strings of the listed lengths and ALL outcomes of every setup function, the pending-instruction slot is empty at every normal and exceptional exit of a top-level call and the returned instruction's bytes are a prefix of this call's bytes; prefix chains are cut after the first prefix (the recursive call is the contract itself). ispec.decode's rollback on InstructionError restores the pending instruction's bytes and attributes (proof level per specification).",
@@ -128,6 +128,45 @@ REGISTRY["C09"] = {
     "explanation": "bounded symbolic verification of aliasing: all pointer placements symbolic, programs of <= 4 accesses",
     "trusted_base": _TB + ["byte-level sequential memory oracle (contracts/mapper.py: ByteMem)"],
     "assumptions": _AS_COMMON,
+}
+
+REGISTRY["C17"] = {
+    "modules": ["contracts.rt"],
+    "category": "exploration",
+    "technique": "run-time contracts on the real decoders/formatters/semantics (sidecar, no /repo edit) evaluated on spec-driven generated inputs; bounded stand-in, not a proof",
+    "level_text": "Bounded (concrete inputs): for every importable cpu module and mode, every shipped specification is exercised with byte strings matching its fixed bits (seeded free bits, tails, x86 prefixes) plus random strings; the contract 'decode returns or reports and never raises; the instruction is well formed; str/toks/pickle/execute do not raise' is evaluated on each. Nothing is proved: the setup functions, formatters and semantics (several thousand Python functions over byte strings, pyparsing and struct) are outside the symbolic engine's reach.",
+    "level_note": "a contract-based proof is not within reach for this property (see DESIGN.md section 5); the run-time contract is the bounded stand-in the brief allows, labelled bounded. Known findings are matched by (cpu, failure signature).",
+    "design_ref": "DESIGN.md section 4 (C17)",
+    "rule": "per shipped specification: byte strings matching its fixed bits (seeded free bits, tails, prefixes) plus random strings; distinct_nontrivial = number of different mnemonics decoded",
+    "explanation": "run-time contracts on spec-driven generated inputs",
+    "trusted_base": ["input generator contracts/rt.py (specs/fmtsem.py for the fixed bits)"],
+    "assumptions": ["bounded: concrete inputs only, no proof"],
+}
+
+REGISTRY["C05"] = {
+    "modules": ["contracts.decoder", "contracts.rt"],
+    "category": "other",
+    "technique": "contract-based deductive verification of ispec.decode on symbolic bytes (instruction.bytes = the consumed prefix, every delivered argument a function of those bytes only) for every shipped specification; run-time contracts with the real setup functions for the variable-length ISAs",
+    "level_text": "Proof-level part: for every shipped specification and ALL instruction words and trailing bytes, ispec.decode records exactly the first blen bytes and hands the setup function values that are terms over those bytes only (the C03 contract with symbolic tails). Bounded part (run-time contracts, concrete spec-driven inputs, all cpu modules with their real setup functions): i.bytes == b[:length], 1 <= length <= len(b), and decoding b[:length], b[:length]+t, and the maxlen window give the same instruction. The check's level is the weaker one.",
+    "level_note": "the variable-length setup functions (x86/x64 ModRM/SIB/displacement/immediate readers, LEB128 tails of wasm/dwarf) are only exercised concretely; bounded, not proved.",
+    "design_ref": "DESIGN.md section 4 (C05)",
+    "rule": "symbolic: one case per path of ispec.decode; run-time: per shipped specification byte strings matching its fixed bits, distinct = different mnemonics decoded",
+    "explanation": "proof-level contract of ispec.decode on symbolic bytes + bounded run-time contracts with real setup functions",
+    "trusted_base": _TB + ["specs/fmtsem.py", "input generator contracts/rt.py"],
+    "assumptions": _AS_COMMON,
+}
+
+REGISTRY["C10"] = {
+    "modules": ["contracts.rt"],
+    "category": "exploration",
+    "technique": "run-time frame contract (every shared register object exported by the architecture keeps size/sign flag/type/name; env.internals and regtype.cur unchanged) evaluated around decode/format/execute of spec-driven generated instructions",
+    "level_text": "Bounded (concrete inputs): for every cpu module, every specification is decoded, formatted and executed once or more and the frame contract 'shared objects unchanged' is evaluated around it. The semantic clause (a map built after other analysis work denotes the same function) follows from the frame contract only for the state the monitor fingerprints; no proof is claimed.",
+    "level_note": "bounded stand-in; the symbolic counterpart for the expression algebra is part of C13 (operands keep their denotation) and was the subject of fix b75f9ec.",
+    "design_ref": "DESIGN.md section 4 (C10)",
+    "rule": "per shipped specification one or more encodings; distinct = different mnemonics executed",
+    "explanation": "run-time frame contract on shared architecture objects",
+    "trusted_base": ["input generator contracts/rt.py", "fingerprint of shared objects: (size, sf, etype, ref) of registers/slices exported by the cpu module, env.internals, regtype.cur"],
+    "assumptions": ["bounded: concrete inputs only"],
 }
 
 NOT_APPLICABLE = {
